@@ -256,8 +256,11 @@ def run_property(prop, tier, seed, only_kernel=None, verbose=True):
         "wall_s": round(wall, 2),
         "violations": len(violations),
     }
-    os.makedirs(EVID, exist_ok=True)
-    with open(os.path.join(EVID, prop + ".json"), "w") as f:
+    # a partial run (one kernel, or the debugging job filter) must not replace the record of the property's full check
+    partial = only_kernel is not None or bool(os.environ.get("VERIF_DEBUG_JOB_FILTER"))
+    evdir = os.path.join(HERE, "work", prop) if partial else EVID
+    os.makedirs(evdir, exist_ok=True)
+    with open(os.path.join(evdir, (prop + ".partial.json") if partial else (prop + ".json")), "w") as f:
         json.dump(ev, f, indent=1)
 
     print("property %s tier=%s seed=%d: %d kernels, %d jobs, proof obligations %d/%d, bounded %d/%d, %.1fs" % (
